@@ -2027,6 +2027,10 @@ fn check_definitions<'a>(
                 }
             }
 
+            for (_, _, definition) in definitions {
+                check_definitions(source_path, source_contents, definition, new_depth, errors);
+            }
+
             check_definitions(source_path, source_contents, body, new_depth, errors);
         }
         term::Variant::Negation(subterm) => {
